@@ -1184,3 +1184,7 @@ mutant('C15', 'c15-sweep-schedule-drops-inf', LOOP,
        "            self._activations.push(self.time + delay, Activation(target, signal))",
        "            if delay != float('inf'):\n                self._activations.push(self.time + delay, Activation(target, signal))",
        'queues-once-on-every-path', 'a wake-up after an infinite delay is never queued')
+mutant('C08', 'c08-listener-registered-conditionally', TRACKED,
+       "        self._listeners[listener] = None",
+       "        if listener._waiting:\n            self._listeners[listener] = None",
+       'Tracked.__add_listener__', 'only comparisons that already have waiters are told of changes')
